@@ -286,6 +286,40 @@ func init() {
 			"the driver's response log (scripts: also against the Coq model). Recorder cases feed the same entries to 8-12 fresh data recorders " +
 			"(table creation order rotated) and compare location IDs and rows. Non-trivial: script with >= 3 events; every library case; " +
 			"recorder with >= 2 tables and >= 2 distinct locations.",
-		Gen: gen, Run: run,
+		Gen: gen, Run: run, Shrink: shrink,
 	})
+}
+
+func shrink(raw json.RawMessage) []json.RawMessage {
+	var k kindOnly
+	if hx.UJ(raw, &k) != nil {
+		return nil
+	}
+	var out []json.RawMessage
+	switch k.Kind {
+	case "lib":
+		var in libIn
+		if hx.UJ(raw, &in) != nil {
+			return nil
+		}
+		for _, c := range asm.ShrinkConfigs(in.Cfg) {
+			out = append(out, hx.J(libIn{Kind: "lib", Cfg: c}))
+		}
+	case "recorder":
+		var in recIn
+		if hx.UJ(raw, &in) != nil {
+			return nil
+		}
+		if len(in.Locs) > 2 {
+			c := in
+			c.Locs = in.Locs[:len(in.Locs)-1]
+			out = append(out, hx.J(c))
+		}
+		if in.Tables > 2 {
+			c := in
+			c.Tables--
+			out = append(out, hx.J(c))
+		}
+	}
+	return out
 }
